@@ -109,16 +109,16 @@ def one(cases, rng, tier, d, rep, dtname):
         z = clone_tt(x)
         torchtt.grad.watch(z)
         return z
-    if dtname != "c128":  # requires_grad on complex leaves is supported, keep both
+    if dtname not in ("c128", "c64"):  # requires_grad on complex leaves is supported, keep both
         pass
     box, impl = boxed(lambda x=x: watched(x).norm(True).detach())
     cases.append(Case(J("normsq", tt_tokens(x)), impl, chk_val(box, nsq_exact), "norm/autograd-squared/" + tag, nt))
     box, impl = boxed(lambda x=x: x.norm(True))
-    cases.append(Case(None, impl, chk_val(box, nsq_exact, exact=False, tol=1e-5 if dtname == "f32" else 1e-12), "norm/qr-squared/" + tag, nt, desc="norm(True) N=%s R=%s %s" % (N, list(x.R), dtname)))
+    cases.append(Case(None, impl, chk_val(box, nsq_exact, exact=False, tol=1e-5 if dtname in ("f32", "c64") else 1e-12), "norm/qr-squared/" + tag, nt, desc="norm(True) N=%s R=%s %s" % (N, list(x.R), dtname)))
     box, impl = boxed(lambda x=x: x.norm())
-    cases.append(Case(None, impl, chk_val(box, lambda: tn.sqrt(tn.abs(nsq_exact())), exact=False, tol=1e-5 if dtname == "f32" else 1e-12), "norm/qr/" + tag, nt, desc="norm() N=%s R=%s %s" % (N, list(x.R), dtname)))
+    cases.append(Case(None, impl, chk_val(box, lambda: tn.sqrt(tn.abs(nsq_exact())), exact=False, tol=1e-5 if dtname in ("f32", "c64") else 1e-12), "norm/qr/" + tag, nt, desc="norm() N=%s R=%s %s" % (N, list(x.R), dtname)))
     box, impl = boxed(lambda x=x: watched(x).norm().detach())
-    cases.append(Case(None, impl, chk_val(box, lambda: tn.sqrt(tn.abs(nsq_exact())), exact=False, tol=1e-5 if dtname == "f32" else 1e-12), "norm/autograd/" + tag, nt, desc="watched norm() N=%s" % N))
+    cases.append(Case(None, impl, chk_val(box, lambda: tn.sqrt(tn.abs(nsq_exact())), exact=False, tol=1e-5 if dtname in ("f32", "c64") else 1e-12), "norm/autograd/" + tag, nt, desc="watched norm() N=%s" % N))
     # --- operators: sum, norm, bilinear form
     if d <= 4:
         M = rand_modes(rng, d, 1, 3)
@@ -130,7 +130,7 @@ def one(cases, rng, tier, d, rep, dtname):
         box, impl = boxed(lambda A=A: watched(A).norm(True).detach())
         cases.append(Case(J("normsq", tt_tokens(A)), impl, chk_val(box, lambda: (dA * dA.conj()).sum()), "norm/autograd-squared/ttm/" + tag, True))
         box, impl = boxed(lambda A=A: A.norm(True))
-        cases.append(Case(None, impl, chk_val(box, lambda: (dA * dA.conj()).sum(), exact=False, tol=1e-5 if dtname == "f32" else 1e-12), "norm/qr-squared/ttm/" + tag, True, desc="ttm norm M=%s N=%s" % (M, Nn)))
+        cases.append(Case(None, impl, chk_val(box, lambda: (dA * dA.conj()).sum(), exact=False, tol=1e-5 if dtname in ("f32", "c64") else 1e-12), "norm/qr-squared/ttm/" + tag, True, desc="ttm norm M=%s N=%s" % (M, Nn)))
         xl = rand_tt(rng, M, rand_ranks(rng, d, 2), dt)
         yr = rand_tt(rng, Nn, rand_ranks(rng, d, 2), dt)
         dxl, dyr = dense_of(xl), dense_of(yr)
@@ -209,11 +209,11 @@ def run(res, rng, tier, known):
     cases = []
     orders = [1, 2, 3, 4] if tier == "quick" else [1, 2, 3, 4, 5]
     reps = 4 if tier == "quick" else 14
-    dts = ["f64", "c128", "f32"]
+    dts = ["f64", "c128", "f32", "c64"]
     ci = 0
     for d in orders:
         for rep in range(reps):
-            one(cases, rng, tier, d, rep, dts[ci % 3]); ci += 1
+            one(cases, rng, tier, d, rep, dts[ci % len(dts)]); ci += 1
     rng.shuffle(cases)
     run_cases(res, cases, known)
     qr_norm_tie(res, rng, tier)
